@@ -49,6 +49,18 @@ def handle (op : String) (a : List String) : Option String :=
       some (r ++ "\t" ++ r)
     | _, _, _, _ => some "bad-request\tbad-request"
   | "c03.signed", _ => some "*\tok"
+  -- c03.multi <seed> <nout> <types> <mutated output | ->: every input signed with its own type; after changing the amount of
+  -- output j the spend must fail iff some input's type commits to output j (ALL, or SINGLE at index j)
+  | "c03.multi", [_seed, _nout, tys, mutated] =>
+    let types := (tys.splitOn ",").filterMap String.toNat?
+    if mutated == "-" then some "*\tok"
+    else match mutated.toNat? with
+      | none => some "bad-request\tbad-request"
+      | some j =>
+        let idxs := List.range types.length
+        let commits := (idxs.zip types).any fun (i, t) =>
+          Spec.SighashCoverage.isAll t || (Spec.SighashCoverage.base t = 3 && i == j)
+        some (if commits then "*\terr" else "*\tok")
   -- c03.mut <seed> <nin> <nout> <idx> <type> <mutation>: the verdict is decided by the coverage table alone
   | "c03.mut", [_seed, _nin, _nout, _idx, ty, m] =>
     match ty.toNat?.bind (fun t => Spec.SighashCoverage.covered t m) with
